@@ -444,3 +444,12 @@ Fixpoint spec_sched (limit : Z) (th : list (Z * tstate)) (es : list ev) (outs : 
       (o =? match tlookup t th with Some TRunning => 3 | _ => 0 end) && spec_sched limit th es' outs'
   | _, _ => false
   end.
+
+(* several handlers in one process, each with its own HandlerOpts.Registry (or none): the error counter a registry
+   exposes counts exactly the failures of the handler it was configured on, per cause.
+   One entry per handler: (own gathering failures, own encoding failures, exposed (gathering, encoding) if a Registry is set) *)
+Definition spec_counters_own (hs : list (Z * Z * option (Z * Z))) : bool :=
+  forallb (fun h => match h with
+                    | (g, e, Some (g', e')) => (g' =? g) && (e' =? e)
+                    | (_, _, None) => true
+                    end) hs.
